@@ -663,6 +663,33 @@ func cases(tier, path string) {
 			w.decU(rr, []reflect.Type{ht}, "gzip-hint-vector")
 		}
 	}
+	// a hinted vector INSIDE an interface field (rpc_result.result), intact and damaged: count larger
+	// than the rest, cut element, missing count - what a hostile or truncated vector result looks like
+	for _, ht := range hintTypes {
+		for k := 0; k < 3; k++ {
+			v := g.Value(ht, 1, true)
+			r := marshal(v.Interface())
+			if r.class != "ok" {
+				continue
+			}
+			head := append(le32(0xf35c6d01), []byte{9, 0, 0, 0, 3, 0, 0, 0}...)
+			rr := append(append([]byte{}, head...), r.data...)
+			w.decU(rr, []reflect.Type{ht}, "hint-in-result")
+			w.decU(rr, nil, "hint-in-result-missing")
+			for _, cnt := range []uint32{0xffffffff, 0x7fffffff, 0x80000000, uint32(v.Len()) + 1, 1000} {
+				m := append([]byte{}, rr...)
+				if len(m) >= len(head)+8 {
+					copy(m[len(head)+4:], le32(cnt))
+					w.decU(m, []reflect.Type{ht}, "hint-in-result-mut")
+				}
+			}
+			for _, cut := range []int{len(head) + 4, len(head) + 6, len(head) + 8, len(rr) - 1, len(rr) - 3} {
+				if cut > 0 && cut < len(rr) {
+					w.decU(rr[:cut], []reflect.Type{ht}, "hint-in-result-mut")
+				}
+			}
+		}
+	}
 	w.decU(append(le32(crcGzip), putMessage([]byte{1, 2, 3, 4, 5})...), nil, "gzip-bad")
 	gzok := gzipBytes(le32(0x997275b5))
 	w.decU(append(le32(crcGzip), putMessage(gzok[:len(gzok)-6])...), nil, "gzip-truncated")
